@@ -44,10 +44,13 @@ CHECKS.update({
     "C14": ("exploration",
             "bounded explicit-state exploration of the real class by replay, with online trace-specification monitors and a shadow clock",
             "Every input sequence to depth 6 (quick) / 7 (thorough) over time advances x reference-clock outcomes is replayed on a "
-            "fresh SystemClockLoop for 18 configurations, plus seeded 3000-step random walks; monitors check apply-immediately, "
-            "backup writes, no change on invalid/timeout, retry lower bound, bounded progress and silence without a reference. "
+            "fresh SystemClockLoop for 26 configurations (periods, timeout, wiring, response values incl. 0, 1, -1, negative and both ends of "
+            "the 32-bit range, optional TimingStats attached), five counter bases incl. wraps of the full-width counter, plus seeded "
+            "3000-step random walks; monitors check apply-immediately, backup writes, no change on invalid/timeout, retry lower bound, "
+            "bounded progress, silence without a reference, and exact time keeping against an independent model (value and true time of "
+            "the last setting) while every gap between loop() calls is bridgeable. "
             "Reported as exploration (no separate model is checked); distinct FSM (state, period) pairs and edges are measured.",
-            BASE_NOTE + " millis() never crosses 2^32 in these runs (64-bit unsigned long on the host).", "3/C14"),
+            BASE_NOTE + " The injected counter is full width (2^64 on this host, 2^32 on the boards) and is made to wrap at ULONG_MAX in three of the five base classes.", "3/C14"),
 })
 
 CHECKS.update({
@@ -60,13 +63,15 @@ CHECKS.update({
     "C11": ("exploration",
             "exhaustive runtime read-back of compiled id constants, registries and link references vs djb2 oracles, tools hash and a recorded baseline",
             "All zones/links of zonedb and zonedbx are enumerated through a generated symbol table compiled against the real "
-            "headers; Python hash_name and tools/zonedbpy names are checked against the same ids and a recorded baseline.",
+            "headers; Python hash_name (also on 20k..400k seeded random names) and tools/zonedbpy names are checked against the same ids and a recorded "
+            "baseline; tzdata 2025b, sources with colliding names and names whose djb2 is 0, 1, 2^31-1, 2^31, 2^32-2, 2^32-1 are compiled "
+            "afresh and their ids, id constants (matched to symbols, links included), registry order and link targets examined.",
             BASE_NOTE + " Baseline recorded from this release.", "3/C11"),
     "C16": ("exploration",
             "runtime save/restore and equality monitors over all zones, manual-offset grid and all type bytes, under ASan+UBSan",
             "Every zone of both registries (plain and managed), a grid of manual zones with int16 extremes, error/default zones "
-            "and all 256 serialised type bytes go through save -> restore (full and partial registries); operator== is compared "
-            "with the stated relation on all pairs of a pool.",
+            "and all 256 serialised type bytes go through save -> restore (full and partial registries, a second manager); operator== is compared "
+            "with the stated relation on all pairs of a pool; manual zones are asked at 16 instants incl. the ends of the int32 range.",
             BASE_NOTE, "3/C16"),
 })
 
@@ -81,8 +86,8 @@ CHECKS.update({
     "C02": ("exploration",
             "dense runtime sweep vs zic oracle + differential comparison with the extended processor + guarded drop hook + friend-class cache invariant",
             "As C01 for all 268 basic zones, plus probe-by-probe comparison with the extended processor for every shared name, "
-            "a guarded hook that reports transitions dropped by the full five-slot cache, and a structural cache invariant "
-            "read after every year fill.",
+            "a guarded hook that reports transitions dropped by the full five-slot cache, a structural cache invariant "
+            "read after every year fill, and a pass in which one processor is shared by all zones of a shard and asked instant by instant.",
             BASE_NOTE + " Hook: ACE_TIME_VERIF_HOOKS in BasicZoneProcessor::addTransition.", "3/C02"),
 })
 
@@ -95,11 +100,11 @@ CHECKS.update({
             "civil calendar for fields.",
             BASE_NOTE + " Verdict domain excludes instants where t+offset leaves the int32 day arithmetic (C09).", "3/C05"),
     "C07": ("exploration",
-            "runtime monitor with an occurrence-set oracle built from the zone's own instant->offset function on a private processor; ASan+UBSan slice",
+            "runtime monitor with an occurrence-set oracle built from zic's instant->offset function (the oracle of C01/C02); ASan+UBSan slice",
             "Every minute within +-200 min of the wall-clock image of every transition of every zone of both databases, second-"
             "level edges of every gap/overlap, and seeded random wall times; expectation derived per case from the set of real "
             "occurrences {L-o : offset(L-o)=o}.",
-            BASE_NOTE + " The instant->offset function is the library's own (tied to zic by C01/C02).", "3/C07"),
+            BASE_NOTE + " The instant->offset function is zic's reading of the lines recorded beside the shipped tables (self-checked against CPython zoneinfo); manual zones use their own fixed offset.", "3/C07"),
 })
 
 CHECKS.update({
@@ -114,16 +119,19 @@ CHECKS.update({
             "sanitizer-instrumented hostile workloads (ASan+UBSan, report blocks classified by mechanism), crash journal, CPU-budget hang detector, buffer high-water monitor and guarded hook",
             "Boundary/product and seeded random arguments for every public factory and accessor, all call sequences to length "
             "3 (quick) / 4 (thorough) over argument classes, per-zone per-year transition-pool high-water marks against the "
-            "recorded sizes, the basic cache-overflow hook, abbreviation builders on exact-size heap buffers, and the C08 "
-            "histories, all under ASan+UBSan. A clean run is not memory safety; 16 int32-range-edge overflows are recorded as "
-            "known findings by call site and operand class.",
+            "recorded sizes (shipped tables, and tables compiled afresh from the shipped lines, tzdata 2025b, data/features.zi and seed-derived "
+            "subsets with other year ranges, incl. the year before the first and after the last compiled year), the basic cache-overflow "
+            "hook, abbreviation builders on exact-size heap buffers, registries of size 0 and 1, and the C08 histories, under ASan+UBSan "
+            "at -O1 and (a slice) at -O0. A clean run is not memory safety; the int32-range-edge overflows and the compiler's buffer "
+            "estimate for non-default year ranges are recorded as known findings by call site / mechanism.",
             BASE_NOTE + " UBSan groups: undefined (incl. bounds, signed overflow, null, shift); implicit-conversion and unsigned overflow are deliberately off.", "3/C09"),
 })
 
 CHECKS.update({
     "C03": ("translation_validation",
             "translation validation by execution: real compiler pipeline with conservation contracts on every pass, emitted tables run through the real interpreters and compared with zic on the same text",
-            "Programs are TZ sources (lines recorded beside the shipped tables, the real 2025b release, seed-driven mutants). "
+            "Programs are TZ sources (lines recorded beside the shipped tables, the real 2025b release, two hand-written sources holding the rare "
+            "and the unsupported constructs - also compiled with --strict and with 900 s granularities -, seed-driven mutants). "
             "Each is compiled in-process by the real Extractor/Transformer/generators (basic and extended scope) with a "
             "conservation contract on every Transformer pass; every emitted zone is executed by the Python ZoneSpecifier and, as "
             "generated C++ tables compiled in their own namespace, by the C++ processors, and compared with zic; every input "
@@ -134,16 +142,17 @@ CHECKS.update({
 CHECKS.update({
     "C04": ("exploration",
             "differential runtime monitor: Python ZoneSpecifier vs the C++ extended processor on the same decoded table data; option-independence monitor",
-            "Every zone of zonedbx (quick: 60 seed-chosen) is read back through the C++ brokers and decoded into the Python data "
-            "model; both implementations answer the same instants (every transition +-{0,1,60} s, year boundaries, a grid) and "
-            "local date-times (+-200 min around every transition); the eight option combinations are compared with the default.",
+            "Every zone of zonedbx is read back through the C++ brokers and decoded into the Python data "
+            "model; both implementations answer the same instants (every transition +-{0,1,60} s, year boundaries, a grid, and instants up to "
+            "16 h outside 2000..2050 whose local date is inside) and local date-times (+-200 min around every transition); the eight option "
+            "combinations are compared with the default; the same on tables compiled afresh from the hand-written sources.",
             BASE_NOTE + " Each implementation is the other's oracle; zic is consulted by C01/C03.", "3/C04"),
     "C12": ("translation_validation",
             "encode with the real generator, compile, decode through the library's brokers, compare; regenerate shipped tables with tzcompiler.py and compare text and fields",
             "Programs: two synthetic databases (basic, extended) spanning the full product of admissible values per encoded field "
             "(9,006 eras and 9,006 rules) plus the two shipped databases regenerated from their recorded source lines. Every field "
-            "is read back through the brokers from the compiled tables (ASan+UBSan); shipped files must equal generator output "
-            "line by line.",
+            "is read back through the brokers from the compiled tables (ASan+UBSan); the same value classes written as text in Zone/Rule "
+            "lines go through the whole compiler in both scopes; shipped files must equal generator output line by line.",
             BASE_NOTE + " The product covers each field's value set, not all cross-field combinations.", "3/C12"),
 })
 
@@ -151,8 +160,9 @@ CHECKS.update({
     "C18": ("exploration",
             "exhaustive three-way runtime comparison (C++ under ASan+UBSan, Python, datetime calendar oracle) over expressions admitted by the executed transformer pass",
             "The admission predicate is the real transformer pass run on every ON string of the grammar x 12 months; every "
-            "admitted expression x every year 1873..2126 (1.39 M cases) is resolved by both implementations and the calendar. "
-            "Finite domain, enumerated completely in both tiers.",
+            "admitted expression x every year 1873..2127 (1.39 M cases) is resolved by both implementations and the calendar; for 2000..2049 "
+            "each case is also built as an in-memory zone and both processors are asked on which day they apply it; the UNTIL-day path of the "
+            "compiler runs on multi-era synthetic zones. Finite domain, enumerated completely in both tiers.",
             BASE_NOTE + " Oracle: Python datetime/calendar.", "3/C18"),
 })
 
@@ -162,7 +172,8 @@ CHECKS.update({
             "All zones of the installed pytz and dateutil for 2000..2038, configurations aimed so that a Dec 30/31 change falls "
             "into the last partial sampling cell, and a seeded lattice of (range, interval, detect_dst); every change the "
             "library exhibits must be bracketed at adjacent minutes, every item must equal astimezone(), samples must exist; "
-            "rendering is checked by compiling the generated C++ tables and reading every item back.",
+            "zones the library resolves must not be dropped; ranges reach past 2038; the generator scripts are run end to end (stdin -> "
+            "validation_data.json); rendering is checked by compiling the generated C++ tables and reading every item back.",
             BASE_NOTE + " pytz 2026.3 / dateutil 2.9 are objects under observation: their tables are the oracle for what their API exhibits.", "3/C19"),
 })
 
@@ -171,7 +182,8 @@ CHECKS.update({
             "repeated real compilations under varied hash seeds/working directories compared byte for byte; generated artefacts imported/compiled and cross-checked against each other and zic",
             "Programs are (source, scope, language/action) combinations compiled twice by tzcompiler.py in separate processes "
             "(different PYTHONHASHSEED, cwd, output dir); generated Python tables are imported and compared with the in-memory "
-            "tables, zones.txt with the emitted set, every stated count with entries counted by importing/compiling, freshly "
+            "tables, every zones.txt with the emitted set, the zone_strings and validation_* artefacts and every stated count with entries "
+            "counted by parsing/importing/compiling, freshly "
             "generated basic tables with extended ones probe by probe, and the checked-in tools/zonedbpy (plus zinfo.py) with "
             "zic on its own recorded lines.",
             BASE_NOTE + " Two hash seeds per program cannot prove order-independence; set-order bugs show with high probability.", "3/C20"),
